@@ -45,10 +45,137 @@ def scenarios(tier, seed):
                                 out.append({"sim": sim, "n": n, "edges": edges, "weights": w, "tau": tau, "gamma": gamma,
                                             "p": {0.0: 0.0, 1.0: 0.5, 2.0: 1.0}[tau], "tmin": tmin, "tmax": tmax,
                                             "init_kw": ik, "weighted": weighted, "seed": s * 7919 + gi})
+    # generic simulators: any user model, the legal moves are the model's own edges
+    from harness import contagion
+    mrng = pyrandom.Random(seed + 404)
+    for k in range(300 if tier == "quick" else 3000):
+        mname = mrng.choice(sorted(contagion.MODELS))
+        sts, sp, ind = contagion.MODELS[mname]
+        n = mrng.randint(2, 7)
+        directed = mrng.random() < 0.4
+        adj = [[0] * n for _ in range(n)]
+        for u in range(n):
+            for v in range(n):
+                if u != v and mrng.random() < 0.4:
+                    adj[u][v] = 1
+                    if not directed:
+                        adj[v][u] = 1
+        if not directed:
+            for u in range(n):
+                for v in range(u):
+                    adj[u][v] = adj[v][u]
+        tmin = mrng.choice([0, 0, 2.5])
+        out.append({"sim": "Gillespie_simple_contagion(%s)" % mname, "generic": mname, "n": n, "adj": adj, "directed": directed,
+                    "ic": [mrng.choice(sts) for _ in range(n)], "seed": k, "tmin": tmin, "tmax": tmin + mrng.choice([0.5, 2.0, 6.0]),
+                    "tau": 1.0, "gamma": 1.0, "init_kw": {}})
+    from harness import complexc
+    for k in range(200 if tier == "quick" else 2000):
+        mname = mrng.choice(sorted(complexc.MODELS))
+        n = mrng.randint(2, 6)
+        adj = [[0] * n for _ in range(n)]
+        for u in range(n):
+            for v in range(u + 1, n):
+                if mrng.random() < 0.5:
+                    adj[u][v] = adj[v][u] = 1
+        sts = complexc.MODELS[mname][0]
+        tmin = mrng.choice([0, 0, 2.5])
+        out.append({"sim": "Gillespie_complex_contagion(%s)" % mname, "complex": mname, "n": n, "adj": adj,
+                    "ic": [mrng.choice(sts) for _ in range(n)], "seed": k, "tmin": tmin, "tmax": tmin + mrng.choice([0.5, 2.0, 6.0]),
+                    "tau": 1.0, "gamma": 1.0, "init_kw": {}})
+    return out
+
+
+def _record_complex(i):
+    import networkx as nx
+    from harness import complexc
+    sc = _G["scn"][i]
+    EoN = _G["EoN"]
+    sts, rules, infl = complexc.MODELS[sc["complex"]]
+    n = sc["n"]
+    cs = {"model": sc["complex"], "n": n, "statuses": sts, "adj": sc["adj"], "rules": rules, "infl": infl, "small": 0}
+    G = nx.Graph()
+    G.add_nodes_from(range(1, n + 1))
+    for u in range(n):
+        for v in range(u + 1, n):
+            if sc["adj"][u][v]:
+                G.add_edge(u + 1, v + 1)
+    rf, tc, gi = complexc.callbacks(cs, [], "list")
+    IC = {u: sc["ic"][u - 1] for u in range(1, n + 1)}
+    idx = {s: k + 1 for k, s in enumerate(sts)}
+    moves = []
+    for r in rules:
+        moves.append([idx[r["from"]], idx[r["to"]], 0])
+        moves.append([idx[r["from"]], idx[r["alt"]], 0])
+    out = []
+    for full in (False, True):
+        simruns.seed_all(sc["seed"])
+        try:
+            r = EoN.Gillespie_complex_contagion(G, rf, tc, gi, IC, sts, tmin=sc["tmin"], tmax=sc["tmax"], parameters=(), return_full_data=full)
+        except Exception as ex:
+            out.append({"error": repr(ex), "etype": type(ex).__name__, "full": full})
+            continue
+        if full:
+            summ = r.summary()
+            arrs = [[float(x) for x in summ[0]]] + [[int(x) for x in summ[1][s_]] for s_ in sts]
+        else:
+            arrs = [list(a) for a in r]
+        lens = [len(a) for a in arrs]
+        ints = all(float(x) == int(x) for a in arrs[1:] for x in a)
+        m = min(lens)
+        rows = [[float(arrs[0][k])] + [int(arrs[j][k]) for j in range(1, len(sts) + 1)] for k in range(m)]
+        rk = simruns.rank_times([x[0] for x in rows], extra=[float(sc["tmin"]), float(sc["tmax"])])
+        rows = [[rk[x[0]]] + x[1:] for x in rows]
+        out.append({"sim": sc["sim"], "kind": "generic", "disc": 0, "n": n, "tmin": rk[float(sc["tmin"])], "tmax": rk[float(sc["tmax"])],
+                    "whole": 0, "must_die_out": 0, "rows": rows, "equal_lengths": 1 if len(set(lens)) == 1 else 0,
+                    "integers": 1 if ints else 0, "moves": moves, "full": full, "scn": i})
+    return out
+
+
+def _record_generic(i):
+    from harness import contagion
+    sc = _G["scn"][i]
+    EoN = _G["EoN"]
+    sts, sp, ind = contagion.MODELS[sc["generic"]]
+    n = sc["n"]
+    cs = {"model": sc["generic"], "n": n, "statuses": sts, "adj": sc["adj"], "directed": 1 if sc["directed"] else 0, "wmode": "none",
+          "spont": [{"from": a, "to": b, "rate": r, "nw": [1] * n} for (a, b, r) in sp],
+          "induced": [{"a": a, "b": b, "c": c, "rate": r, "ew": sc["adj"]} for (a, b, c, r) in ind]}
+    G, H, J, calls = contagion.build(cs)
+    IC = {u: sc["ic"][u - 1] for u in range(1, n + 1)}
+    idx = {s: k + 1 for k, s in enumerate(sts)}
+    moves = [[idx[a], idx[b], 0] for (a, b, r) in sp] + [[idx[b], idx[c], idx[a]] for (a, b, c, r) in ind]
+    out = []
+    for full in (False, True):
+        simruns.seed_all(sc["seed"])
+        try:
+            r = EoN.Gillespie_simple_contagion(G, H, J, IC, sts, tmin=sc["tmin"], tmax=sc["tmax"], return_full_data=full)
+        except Exception as ex:
+            out.append({"error": repr(ex), "etype": type(ex).__name__, "full": full})
+            continue
+        if full:
+            t = [float(x) for x in r.t()]
+            summ = r.summary()[1]
+            arrs = [t] + [[int(x) for x in summ[s_]] for s_ in sts]
+            # a summary merges simultaneous events; with continuous draws there are none
+        else:
+            arrs = [list(a) for a in r]
+        lens = [len(a) for a in arrs]
+        ints = all(float(x) == int(x) for a in arrs[1:] for x in a)
+        m = min(lens)
+        rows = [[float(arrs[0][k])] + [int(arrs[j][k]) for j in range(1, len(sts) + 1)] for k in range(m)]
+        rk = simruns.rank_times([x[0] for x in rows], extra=[float(sc["tmin"]), float(sc["tmax"])])
+        rows = [[rk[x[0]]] + x[1:] for x in rows]
+        out.append({"sim": sc["sim"], "kind": "generic", "disc": 0, "n": n, "tmin": rk[float(sc["tmin"])], "tmax": rk[float(sc["tmax"])],
+                    "whole": 0, "must_die_out": 0, "rows": rows, "equal_lengths": 1 if len(set(lens)) == 1 else 0,
+                    "integers": 1 if ints else 0, "moves": moves, "full": full, "scn": i})
     return out
 
 
 def _record(i):
+    if "generic" in _G["scn"][i]:
+        return _record_generic(i)
+    if "complex" in _G["scn"][i]:
+        return _record_complex(i)
     sc = _G["scn"][i]
     EoN = _G["EoN"]
     G = simruns.make_graph(sc["n"], sc["edges"], sc["weights"])
